@@ -7,7 +7,9 @@ Small-step model of
 * `ActorProperties::notify_stop_listener` (`notify_waiters` then `notify_one`);
 * `ActorLifecycleGuard::cleanup` (`actor.rs`) preceded by the processing loop's own
   `set_status(Stopping)` and `post_stop`;
-* `ActorProperties::wait`: create `Notified`, then read the status, then await.
+* `ActorProperties::wait`: create `Notified`, then read the status, then await — three separate
+  steps: the window between the status read and the first poll of `Notified` (in which the exiter
+  may publish `Stopped`, `notify_waiters` and `notify_one`) is part of the schedule space.
 
 One model step = one schedule point `crate::verif::point("…")` (names next to the program
 counters). `tokio::sync::Notify` is modelled by its documented contract: `notified()` snapshots
@@ -76,6 +78,9 @@ inductive WPc where
   | start
   /-- `wait.created` : `Notified` exists (generation `snap`), status not read yet -/
   | created (snap : Nat)
+  /-- `wait.checked` : the status has been read and was not `Stopped`; `notified.await` has not
+  been polled yet -/
+  | checked (snap : Nat)
   /-- polled once, registered in the waiter list (harness point `wait.poll`) -/
   | registered
   /-- `wait()` returned; `ok` = at that moment status was `Stopped` and the cleanup was complete -/
@@ -141,6 +146,15 @@ structure Sh where
   /-- ghost: how often the cleanup block / the notify block of `set_status` was elected -/
   cleanupRuns : Nat := 0
   notifyRuns : Nat := 0
+  /-- terminal supervision events handed to the supervisor (`cleanup.notify` executed): the event of
+  `lifecycle.finish(evt)`, and after a panic in a later statement of `cleanup` the guard's `Drop` sends
+  a second one ("actor_task_cancelled") when it runs `cleanup` again -/
+  supEvents : Nat := 0
+  /-- ghost: a `Kill` was accepted by the signal port before the processing loop reached `post_stop`:
+  it wins the first poll of `ports.run_with_signal(post_stop)` (biased `select!`), `handle_signal`
+  terminates the children (an early execution of `cleanup.terminate`'s work) and the exit continues
+  as a killed one — `post_stop` never runs (`Exiter.hasPostStop` is cleared by the `kill` step) -/
+  killPending : Bool := false
   deriving DecidableEq, Repr, Inhabited
 
 structure G where
@@ -164,6 +178,11 @@ inductive Tid where
   /-- the statement of `cleanup` the exiter is about to execute panics; unwinding drops the
   lifecycle guard, whose `Drop` runs `cleanup` again from the top because it is still armed -/
   | unwind
+  /-- a `kill()` / `kill_and_wait()` is accepted by the signal port (whether the port is still open is
+  the business of `Model/WaitForms.lean`). It matters only while the processing loop has not reached
+  `post_stop` (`EPc.set1 _`): a graceful exit then turns into a killed one. Once the actor is inside
+  `post_stop` (one step here: user code that returns) or past it, the signal is never looked at. -/
+  | kill
   deriving DecidableEq, Repr, Inhabited
 
 /-- every cleanup step that precedes `publish(Stopped)` is done -/
@@ -238,7 +257,8 @@ def stepExiter (sh : Sh) (ws : List Waiter) (ex : Exiter) : Sh × List Waiter ×
     | (sh, ws, some c') => (sh, ws, { ex with pc := .set2 c' })
     | (sh, ws, none) => (sh, ws, { ex with pc := .terminate })
   | .terminate => ({ sh with flags := { sh.flags with terminated := true } }, ws, { ex with pc := .notifySup })
-  | .notifySup => ({ sh with flags := { sh.flags with supNotified := true } }, ws, { ex with pc := .unlink })
+  | .notifySup =>
+    ({ sh with flags := { sh.flags with supNotified := true }, supEvents := sh.supEvents + 1 }, ws, { ex with pc := .unlink })
   | .unlink => ({ sh with flags := { sh.flags with unlinked := true } }, ws, { ex with pc := .stopped })
   | .stopped => (sh, ws, { ex with pc := .set3 (.publish stStopped) })
   | .set3 c =>
@@ -270,9 +290,13 @@ def stepWaiter (sh : Sh) (fl : Bool) (w : Waiter) : Sh × Waiter :=
   match w.pc with
   | .start => (sh, { w with pc := .created sh.gen })
   | .created snap =>
-    -- `if self.get_status() != Stopped { notified.await }`
+    -- `if self.get_status() != Stopped { … }`: the status load alone
     if sh.status == stStopped then (sh, { w with pc := .returned fl })
-    else if sh.gen != snap then (sh, { w with pc := .returned fl })
+    else (sh, { w with pc := .checked snap })
+  | .checked snap =>
+    -- first poll of `notified.await`: completes if the `notify_waiters` generation moved since
+    -- `notified()` or by consuming the stored permit; registers otherwise
+    if sh.gen != snap then (sh, { w with pc := .returned fl })
     else if sh.permit then ({ sh with permit := false }, { w with pc := .returned fl })
     else (sh, { w with pc := .registered })
   | .registered =>
@@ -336,6 +360,11 @@ def step (g : G) : Tid → G
         { g with exiter := { g.exiter with pc := .set2 (.publish stStopping), unwound := true } }
       else { g with exiter := { g.exiter with pc := .done, unwound := true } }
     | _ => g
+  | .kill =>
+    match g.exiter.pc with
+    | .set1 _ => { g with sh := { g.sh with killPending := g.sh.killPending || g.exiter.hasPostStop },
+                          exiter := { g.exiter with hasPostStop := false } }
+    | _ => g
 
 def run (g : G) (sched : List Tid) : G := sched.foldl step g
 
@@ -360,7 +389,8 @@ def EPc.point : EPc → String
   | .unlink => "cleanup.unlink" | .stopped => "cleanup.stopped" | .done => "done"
 
 def WPc.point : WPc → String
-  | .start => "wait.poll" | .created _ => "wait.created" | .registered => "wait.poll"
+  | .start => "wait.poll" | .created _ => "wait.created" | .checked _ => "wait.checked"
+  | .registered => "wait.poll"
   | .returned _ => "done" | .abandoned => "done"
 
 /-- The exiter has executed `notify_one` of the final `set_status(Stopped)`. -/
@@ -371,7 +401,7 @@ def Exiter.finished (ex : Exiter) : Bool :=
 
 /-- Steps a waiter still needs: the measure of the no-lost-wake-up theorem. -/
 def WPc.rank : WPc → Nat
-  | .start => 3 | .created _ => 2 | .registered => 1 | .returned _ => 0 | .abandoned => 0
+  | .start => 4 | .created _ => 3 | .checked _ => 2 | .registered => 1 | .returned _ => 0 | .abandoned => 0
 
 /-- all setters only publish values below `Stopping` (what the code base does: `Starting`,
 `Running`; `drain` publishes `Draining` by its own `fetch_update`) -/
